@@ -208,7 +208,10 @@ func (e *Engine) RunPath(fn *ssa.Function, args []V, item WorkItem) (out PathOut
 				out.Msg = fmt.Sprintf("engine failure: %v", r)
 			}
 		}()
-		e.call(nil, 0, V{K: KFunc, P: fn}, args)
+		r := e.call(nil, 0, V{K: KFunc, P: fn}, args)
+		if e.captureResult != nil {
+			*e.captureResult = r
+		}
 	}()
 
 	e.endPathSched()
@@ -442,3 +445,18 @@ func FindFunc(prog *ssa.Program, pkgPath, name string) *ssa.Function {
 }
 
 var _ types.Type
+
+// runConcrete runs fn() once and stores its result (testing aid).
+func (e *Engine) runConcrete(fn *ssa.Function, result *V) PathOutcome {
+	hf := &HostFunc{Name: "runConcrete", Fn: func(e *Engine, fr *frame, args []V) V {
+		*result = e.call(nil, 0, V{K: KFunc, P: fn}, nil)
+		return V{}
+	}}
+	_ = hf
+	var out PathOutcome
+	wrapper := fn
+	e.captureResult = result
+	out, _ = e.RunPath(wrapper, nil, WorkItem{})
+	e.captureResult = nil
+	return out
+}
